@@ -23,6 +23,9 @@ pub enum PkSource {
 	KeyPair,
 	ParsedSpki,
 	CsrPublicKey,
+	/// the whole issuance goes through `CertificateSigningRequestParams::signed_by`: a request is
+	/// generated and parsed, the parsed object's `params` are replaced by the full parameters
+	CsrSignedBy,
 }
 
 #[derive(Clone, Debug, Serialize, Deserialize, PartialEq, Eq, Hash)]
@@ -54,7 +57,7 @@ pub fn cert_case(o: gen::CertGenOpts, cheap_keys: bool) -> BoxedStrategy<CertCas
 	(
 		gen::cert_spec(o),
 		key,
-		prop_oneof![3 => Just(PkSource::KeyPair), 1 => Just(PkSource::ParsedSpki), 1 => Just(PkSource::CsrPublicKey)],
+		prop_oneof![3 => Just(PkSource::KeyPair), 1 => Just(PkSource::ParsedSpki), 1 => Just(PkSource::CsrPublicKey), 1 => Just(PkSource::CsrSignedBy)],
 		prop::option::weighted(0.6, issuer_case(o.moderate_oids, o.same_oid_dn, cheap_keys)),
 	)
 		.prop_map(|(spec, key, pk_source, issuer)| CertCase {
@@ -97,6 +100,21 @@ pub fn build_cert(case: &CertCase) -> Result<Built, String> {
 					let spki = rcgen::SubjectPublicKeyInfo::from_der(&subject_key.public_key_der())
 						.map_err(|e| format!("SubjectPublicKeyInfo::from_der rejected an exported key: {e}"))?;
 					params.signed_by(&spki, &issuer_cert, &issuer_key)
+				},
+				PkSource::CsrSignedBy => {
+					let csr = rcgen::CertificateParams::default()
+						.serialize_request(&subject_key)
+						.map_err(|e| format!("serialize_request failed: {e}"))?;
+					match rcgen::CertificateSigningRequestParams::from_der(csr.der()) {
+						Ok(mut p) => {
+							p.params = params;
+							p.signed_by(&issuer_cert, &issuer_key)
+						},
+						Err(_) => {
+							used = PkSource::KeyPair;
+							params.signed_by(&subject_key, &issuer_cert, &issuer_key)
+						},
+					}
 				},
 				PkSource::CsrPublicKey => {
 					let csr = rcgen::CertificateParams::default()
